@@ -631,7 +631,7 @@ Qed.
 Lemma join_sep_nil cv : join cv [[cv_sep cv]; []] = [cv_sep cv].
 Proof.
   rewrite join_eq. unfold norm_list. cbn [map]. rewrite nps_sep, nps_nil. cbn [filter nonempty].
-  unfold strip_list. rewrite rstrip_cons. cbn [rstrip_nil]. rewrite rstrip_nil, N.eqb_refl. reflexivity.
+  unfold strip_list. rewrite rstrip_cons, rstrip_nil, N.eqb_refl. reflexivity.
 Qed.
 
 Lemma split_sep cv : split cv [cv_sep cv] = ([cv_sep cv], []).
@@ -1028,4 +1028,259 @@ Proof.
   destruct (str_eqb_spec rel [cv_sep cv]) as [E|_]; [contradiction|].
   destruct (is_subpath_rel_shape cv Hok _ _ _ _ H) as [E|Hs]; [contradiction|].
   apply is_subpath_under; assumption.
+Qed.
+
+(* ------------------------------------------------------------------ join puts the relative part inside *)
+Definition abs_path (cv : conv) (f : str) : Prop := exists g, nps cv f = cv_sep cv :: g.
+
+Lemma strip_head_ne c s : match strip c s with x :: _ => x <> c | [] => True end.
+Proof. rewrite <- strip_idem_l. apply lstrip_head_ne. Qed.
+
+Lemma join_two cv f r ff r' :
+  nps cv f = ff -> ff <> [] -> strip (cv_sep cv) (nps cv r) = r' -> r' <> [] ->
+  join cv [f; r] = fin cv (match rstrip (cv_sep cv) ff with [] => r' | d => d ++ cv_sep cv :: r' end).
+Proof.
+  intros Hf Hff Hr Hr'. rewrite join_eq. unfold norm_list. cbn [map]. rewrite Hf.
+  destruct (nps cv r) as [|y rr] eqn:Er; [exfalso; apply Hr'; rewrite <- Hr; reflexivity|].
+  destruct ff as [|x ff']; [contradiction|]. cbn [filter nonempty]. unfold strip_list. cbn [map].
+  rewrite Hr. destruct r' as [|z r'']; [contradiction|]. cbn [filter nonempty].
+  destruct (rstrip (cv_sep cv) (x :: ff')); reflexivity.
+Qed.
+
+Lemma join_blank cv f r : abs_path cv f -> strip (cv_sep cv) (nps cv r) = [] -> join cv [f; r] = nps cv f.
+Proof.
+  intros [g Hg] Hr. rewrite join_eq. unfold norm_list. cbn [map]. rewrite Hg.
+  set (L := strip_list cv _).
+  assert (Hl : L = filter nonempty [rstrip (cv_sep cv) (cv_sep cv :: g)]).
+  { subst L. unfold strip_list. destruct (nps cv r) as [|y rr] eqn:Er; cbn [filter nonempty map]; [apply app_nil_r|].
+    rewrite Hr. apply app_nil_r. }
+  rewrite Hl. clear Hl.
+  destruct (nps_shape cv f) as [Hs|Hs]; rewrite Hg in Hs.
+  - injection Hs as ->. rewrite rstrip_cons, rstrip_nil, N.eqb_refl. reflexivity.
+  - rewrite Hs. cbn [filter nonempty intercalate]. apply fin_sep.
+Qed.
+
+Lemma relpart_of_strip cv r : strip (cv_sep cv) (nps cv r) <> [] ->
+  relpart cv (cv_sep cv :: strip (cv_sep cv) (nps cv r)).
+Proof.
+  intros Hr. exists (strip (cv_sep cv) (nps cv r)). split; [reflexivity|]. split; [exact Hr|]. split.
+  - apply noalt_cons; [apply noalt_sep|]. eapply noalt_incl; [apply strip_incl|apply nps_noalt].
+  - rewrite rstrip_cons, strip_idem_r. destruct (strip (cv_sep cv) (nps cv r)); [contradiction|reflexivity].
+Qed.
+
+Lemma join_inside_eq cv (Hok : conv_ok cv) f r st :
+  abs_path cv f -> strip (cv_sep cv) (nps cv r) <> [] -> dl cv (join cv [f; r]) = false ->
+  is_subpath cv f (join cv [f; r]) st = Rel (cv_sep cv :: strip (cv_sep cv) (nps cv r)).
+Proof.
+  intros [g Hg] Hr Hdl. pose proof (relpart_of_strip cv r Hr) as Hrel.
+  set (r' := strip (cv_sep cv) (nps cv r)) in *.
+  assert (Hj : join cv [f; r] = fin cv (match rstrip (cv_sep cv) (cv_sep cv :: g) with [] => r' | d => d ++ cv_sep cv :: r' end)).
+  { apply join_two; [exact Hg|discriminate|reflexivity|exact Hr]. }
+  assert (Hf : f <> []) by (intros ->; discriminate).
+  destruct (nps_shape cv f) as [Hs|Hs]; rewrite Hg in Hs.
+  - (* the folder is the root *)
+    injection Hs as ->. rewrite rstrip_cons, rstrip_nil, N.eqb_refl in Hj.
+    rewrite Hj in Hdl |- *. unfold fin in Hdl |- *. destruct (dl cv r') eqn:Ed; [congruence|].
+    pose proof (strip_head_ne (cv_sep cv) (nps cv r)) as Hh. fold r' in Hh.
+    assert (Ha : add_sep cv r' = cv_sep cv :: r').
+    { unfold add_sep. destruct r' as [|x r'']; [contradiction|]. destruct (N.eqb_spec x (cv_sep cv)); [contradiction|reflexivity]. }
+    rewrite Ha. apply is_subpath_root; assumption.
+  - rewrite Hs in Hj. change ((cv_sep cv :: g) ++ cv_sep cv :: r') with (cv_sep cv :: (g ++ cv_sep cv :: r')) in Hj.
+    rewrite fin_sep in Hj. rewrite Hj.
+    change (cv_sep cv :: g ++ cv_sep cv :: r') with ((cv_sep cv :: g) ++ cv_sep cv :: r'). rewrite <- Hg.
+    apply is_subpath_under; try assumption. rewrite Hg. intros E. injection E as ->.
+    rewrite rstrip_cons, rstrip_nil, N.eqb_refl in Hs. discriminate.
+Qed.
+
+Lemma pc_sep_strip cv r : pc cv (cv_sep cv :: strip (cv_sep cv) (nps cv r)) = pc cv r.
+Proof.
+  rewrite pc_noalt.
+  - rewrite comps_cons_sep, comps_strip. apply comps_nps.
+  - apply noalt_cons; [apply noalt_sep|]. eapply noalt_incl; [apply strip_incl|apply nps_noalt].
+Qed.
+
+Theorem join_inside cv (Hok : conv_ok cv) f r st d :
+  abs_path cv f -> strip (cv_sep cv) (nps cv r) <> [] -> dl cv (join cv [f; r]) = false ->
+  exists rel, is_subpath cv f (join cv [f; r]) st = Rel rel /\ paths_match cv rel r d = true.
+Proof.
+  intros Ha Hr Hdl. eexists. split; [apply join_inside_eq; assumption|].
+  apply match_iff_key; [exact Hok|]. rewrite pc_sep_strip. reflexivity.
+Qed.
+
+(* ------------------------------------------------------------------ split then join *)
+Lemma split_nps cv p : split cv (nps cv p) = split cv p.
+Proof. unfold split. rewrite nps_idem. reflexivity. Qed.
+
+Lemma pc_nil cv : pc cv [] = [].
+Proof. unfold pc. rewrite rp_nil. reflexivity. Qed.
+
+Lemma pc_sep cv : pc cv [cv_sep cv] = [].
+Proof. rewrite (pc_noalt cv _ (noalt_sep cv)). simpl. rewrite N.eqb_refl. reflexivity. Qed.
+
+Lemma pc_split cv p : pc cv (dirname cv p) ++ pc cv (basename cv p) = pc cv p.
+Proof.
+  unfold dirname, basename. rewrite <- split_nps.
+  destruct (in_dec N.eq_dec (cv_sep cv) (nps cv p)) as [Hin|Hnin].
+  - destruct (last_occurrence _ _ Hin) as [a [b [E Hb]]].
+    assert (Hn : nps cv (a ++ cv_sep cv :: b) = a ++ cv_sep cv :: b) by (rewrite <- E; apply nps_idem).
+    rewrite E, split_at by assumption. cbn [fst snd].
+    pose proof (nps_noalt cv p) as Hna. rewrite E in Hna. apply noalt_app in Hna as [Ha Hb'].
+    assert (Hb'' : noalt cv b) by (eapply noalt_incl; [|exact Hb']; apply incl_tl, incl_refl).
+    rewrite <- (comps_nps cv p), E, comps_app_sep, (pc_noalt cv b Hb''). f_equal.
+    destruct a; [apply pc_sep|apply pc_noalt; exact Ha].
+  - rewrite split_nosep; [|apply nps_idem|exact Hnin]. cbn [fst snd]. rewrite pc_nil, pc_nps. reflexivity.
+Qed.
+
+Theorem split_join cv (Hok : conv_ok cv) p d :
+  paths_match cv (join cv [dirname cv p; basename cv p]) p d = true.
+Proof.
+  apply match_iff_key; [exact Hok|]. rewrite pc_join. cbn [map concat]. rewrite app_nil_r, pc_split. reflexivity.
+Qed.
+
+(* ------------------------------------------------------------------ is_subpath splits the components *)
+Definition lowk (cv : conv) (l : list str) : list str := if cv_cs cv then l else map (lower cv) l.
+
+Lemma lowk_app cv a b : lowk cv (a ++ b) = lowk cv a ++ lowk cv b.
+Proof. unfold lowk. destruct (cv_cs cv); [reflexivity|apply map_app]. Qed.
+
+Lemma lowk_key cv l : lowk cv l = key cv false l.
+Proof. reflexivity. Qed.
+
+Lemma lowk_pc_lowc cv (Hok : conv_ok cv) a b : lowc cv a = lowc cv b -> lowk cv (pc cv a) = lowk cv (pc cv b).
+Proof.
+  unfold lowc, lowk. destruct (cv_cs cv) eqn:Hc; [congruence|]. intros H.
+  rewrite <- !(pc_lower cv (Hok Hc)). rewrite H. reflexivity.
+Qed.
+
+Lemma lowc_firstn cv n s : lowc cv (firstn n s) = firstn n (lowc cv s).
+Proof. unfold lowc. destruct (cv_cs cv); [reflexivity|]. unfold lower. symmetry. apply firstn_map. Qed.
+
+Lemma is_subpath_components cv (Hok : conv_ok cv) f p st r :
+  is_subpath cv f p st = Rel r ->
+  lowk cv (pc cv p) = lowk cv (pc cv f) ++ lowk cv (pc cv r).
+Proof.
+  intros H. assert (Hne : is_subpath cv f p st <> NotSub) by (rewrite H; discriminate).
+  apply is_subpath_args in Hne as [Hf Hp]. rewrite is_subpath_eq in H by assumption. cbv zeta in H.
+  destruct (str_eqb_spec (lowc cv (nps cv f)) (lowc cv (nps cv p))) as [Eq|Eq].
+  - destruct st; [discriminate|]. injection H as <-. rewrite pc_sep.
+    apply (lowk_pc_lowc cv Hok) in Eq. rewrite !pc_nps in Eq. rewrite Eq.
+    unfold lowk at 3. destruct (cv_cs cv); simpl; rewrite app_nil_r; reflexivity.
+  - destruct (andb _ _) eqn:E in H.
+    + injection H as <-. apply andb_true_iff in E as [E1 _]. apply str_eqb_eq in E1.
+      apply (proj1 (lowc_sep_iff cv Hok _)) in E1.
+      rewrite <- (pc_nps cv f), E1, pc_sep, pc_nps.
+      unfold lowk at 2. destruct (cv_cs cv); reflexivity.
+    + destruct (Nat.ltb_spec (length (nps cv f)) (length (nps cv p))) as [Hl|Hl]; [|discriminate].
+      destruct (nth_error (nps cv p) (length (nps cv f))) as [y|] eqn:En; [|discriminate].
+      destruct (N.eqb_spec y (cv_sep cv)) as [->|]; [|discriminate].
+      destruct (startswith _ _) eqn:Es; [|discriminate]. injection H as <-.
+      set (n := length (nps cv f)) in *. set (tf := nps cv p) in *.
+      pose proof (firstn_skipn n tf) as Hsplit.
+      assert (Hsk : exists r', skipn n tf = cv_sep cv :: r').
+      { clearbody n tf. clear -En. revert n En. induction tf as [|z tf IH]; intros [|n] En; simpl in *; try discriminate.
+        - injection En as ->. eexists. reflexivity.
+        - apply IH. exact En. }
+      destruct Hsk as [r' Hr'].
+      pose proof (nps_noalt cv p) as Hna. fold tf in Hna. rewrite <- Hsplit in Hna. apply noalt_app in Hna as [Hna1 Hna2].
+      assert (Hpre : lowc cv (firstn n tf) = lowc cv (nps cv f)).
+      { apply startswith_spec in Es as [x Hx]. rewrite lowc_firstn, Hx.
+        replace n with (length (lowc cv (nps cv f))) by apply lowc_length. apply firstn_len_app. }
+      apply (lowk_pc_lowc cv Hok) in Hpre. rewrite pc_nps in Hpre. rewrite <- Hpre.
+      rewrite <- (pc_nps cv p). fold tf. rewrite <- Hsplit at 1.
+      rewrite (pc_noalt cv (firstn n tf ++ skipn n tf)) by (apply noalt_app; split; assumption).
+      rewrite Hr' in *. rewrite comps_app_sep, lowk_app.
+      rewrite (pc_noalt cv _ Hna1), (pc_noalt cv _ Hna2), comps_cons_sep. reflexivity.
+Qed.
+
+Lemma is_subpath_self cv f : f <> [] -> nps cv f <> [] -> is_subpath cv f (nps cv f) false = Rel [cv_sep cv].
+Proof.
+  intros Hf Hn. rewrite is_subpath_eq by assumption. cbv zeta. rewrite nps_idem, str_eqb_refl. reflexivity.
+Qed.
+
+(* ------------------------------------------------------------------ translate *)
+(* one direction: from convention cf / root rf to convention ct / root rt *)
+Definition trans1 (cf ct : conv) (rf rt p : str) : option str :=
+  match is_subpath cf rf p false with
+  | NotSub => None
+  | Rel [] => None
+  | Rel r => Some (join ct [rt; r])
+  end.
+
+Definition cv_of (cv0 cv1 : conv) (side : bool) : conv := if side then cv1 else cv0.
+Definition root_of (r0 r1 : str) (side : bool) : str := if side then r1 else r0.
+
+Lemma translate_trans1 cv0 cv1 r0 r1 side p :
+  translate cv0 cv1 r0 r1 side p =
+  trans1 (cv_of cv0 cv1 (negb side)) (cv_of cv0 cv1 side) (root_of r0 r1 (negb side)) (root_of r0 r1 side) p.
+Proof. destruct side; reflexivity. Qed.
+
+Lemma trans1_outside cf ct rf rt p : is_subpath cf rf p false = NotSub <-> trans1 cf ct rf rt p = None.
+Proof.
+  unfold trans1. destruct (is_subpath cf rf p false) as [|r] eqn:H; [split; reflexivity|].
+  pose proof (is_subpath_rel_nonempty _ _ _ _ _ H). destruct r; [contradiction|]. split; discriminate.
+Qed.
+
+Lemma trans1_inside cf ct rf rt p r : is_subpath cf rf p false = Rel r -> trans1 cf ct rf rt p = Some (join ct [rt; r]).
+Proof.
+  intros H. unfold trans1. rewrite H. pose proof (is_subpath_rel_nonempty _ _ _ _ _ H).
+  destruct r; [contradiction|reflexivity].
+Qed.
+
+Lemma trans1_lands_inside cf ct (Hok : conv_ok ct) rf rt p q :
+  abs_path ct rt -> trans1 cf ct rf rt p = Some q -> dl ct q = false ->
+  is_subpath ct rt q false <> NotSub.
+Proof.
+  intros Ha Ht Hdl. unfold trans1 in Ht. destruct (is_subpath cf rf p false) as [|r]; [discriminate|].
+  destruct r as [|x r]; [discriminate|]. injection Ht as <-.
+  destruct (strip (cv_sep ct) (nps ct (x :: r))) eqn:Es.
+  - rewrite (join_blank ct rt (x :: r) Ha Es). destruct Ha as [g Hg].
+    rewrite is_subpath_self; [discriminate|intros ->; discriminate|rewrite Hg; discriminate].
+  - rewrite join_inside_eq; try assumption; [discriminate|rewrite Es; discriminate].
+Qed.
+
+Definition same_syntax (a b : conv) : Prop := cv_sep a = cv_sep b /\ cv_alt a = cv_alt b.
+
+Lemma nps_syn a b s : same_syntax a b -> nps a s = nps b s.
+Proof. intros [H1 H2]. unfold nps. rewrite H1, H2. reflexivity. Qed.
+
+Lemma pc_syn a b s : same_syntax a b -> pc a s = pc b s.
+Proof. intros [H1 H2]. unfold pc, rp. rewrite H1, H2. reflexivity. Qed.
+
+Lemma abs_syn a b s : same_syntax a b -> abs_path a s -> abs_path b s.
+Proof. intros Hs [g Hg]. exists g. rewrite <- (nps_syn a b s Hs). destruct Hs as [<- _]. exact Hg. Qed.
+
+Lemma dl_nowin cv j : cv_win cv = false -> dl cv j = false.
+Proof. intros H. unfold dl. rewrite H. reflexivity. Qed.
+
+Lemma trans1_roundtrip cf ct (Hokf : conv_ok cf) (Hokt : conv_ok ct) rf rt p :
+  same_syntax cf ct -> abs_path cf rf -> abs_path ct rt -> cv_win cf = false -> cv_win ct = false ->
+  is_subpath cf rf p false <> NotSub ->
+  exists q back, trans1 cf ct rf rt p = Some q /\ trans1 ct cf rt rf q = Some back /\
+                 paths_match cf back p false = true.
+Proof.
+  intros Hsyn Haf Hat Hwf Hwt Hin.
+  destruct (is_subpath cf rf p false) as [|r] eqn:Hr; [contradiction|]. clear Hin.
+  pose proof (is_subpath_components cf Hokf _ _ _ _ Hr) as Hcomp.
+  exists (join ct [rt; r]). rewrite (trans1_inside _ _ _ _ _ _ Hr).
+  assert (Hrf : rf <> []) by (destruct Haf as [g Hg]; intros ->; discriminate).
+  assert (Hrt : rt <> []) by (destruct Hat as [g Hg]; intros ->; discriminate).
+  assert (Hnrf : nps cf rf <> []) by (destruct Haf as [g Hg]; rewrite Hg; discriminate).
+  assert (Hnrt : nps ct rt <> []) by (destruct Hat as [g Hg]; rewrite Hg; discriminate).
+  destruct (strip (cv_sep ct) (nps ct r)) as [|z w] eqn:Es.
+  - (* blank relative part: the path is the root *)
+    rewrite (join_blank ct rt r Hat Es).
+    exists (nps cf rf). split; [reflexivity|]. split.
+    + rewrite (trans1_inside _ _ _ _ _ _ (is_subpath_self ct rt Hrt Hnrt)).
+      f_equal. apply join_blank; [exact Haf|].
+      rewrite <- (proj1 Hsyn), nps_sep. unfold strip. simpl lstrip. rewrite N.eqb_refl. reflexivity.
+    + apply match_iff_key; [exact Hokf|]. rewrite <- !lowk_key, Hcomp, pc_nps.
+      assert (Hpr : pc cf r = []).
+      { rewrite (pc_syn cf ct r Hsyn). rewrite <- comps_nps, <- comps_strip, Es. reflexivity. }
+      rewrite Hpr. unfold lowk at 3. destruct (cv_cs cf); simpl; rewrite app_nil_r; reflexivity.
+  - assert (Hne : strip (cv_sep ct) (nps ct r) <> []) by (rewrite Es; discriminate).
+    pose proof (join_inside_eq ct Hokt rt r false Hat Hne (dl_nowin ct _ Hwt)) as Hback.
+    eexists. split; [reflexivity|]. split; [apply (trans1_inside _ _ _ _ _ _ Hback)|].
+    apply match_iff_key; [exact Hokf|]. rewrite <- !lowk_key, Hcomp, pc_join. cbn [map concat].
+    rewrite app_nil_r, lowk_app. f_equal. f_equal.
+    rewrite (pc_syn cf ct _ Hsyn), pc_sep_strip. symmetry. apply pc_syn. exact Hsyn.
 Qed.
